@@ -32,11 +32,13 @@ func TestMakeExemplars(t *testing.T) {
 		evid.WriteFailure(evid.Failure{Property: prop, Test: "parse", Message: "regression exemplar", Case: c})
 	}
 	pipes := map[string]PipeCase{
-		"multiUse-rejects-a-later-entry":   {Text: "numbers(10).multiUse({a: l -> l.reduce((a, b) -> a + b), b: 3})", Repeats: 3, Consume: "force"},
-		"multiUse-rejects-a-later-closure": {Text: "numbers(1000).map(n -> n + 1).multiUse({a: l -> l.first(), b: l -> l.mapReduce(0, (s, i) -> s + i), c: (x, y) -> x * y})", Repeats: 3, Consume: "force"},
-		"multiUse-consumer-fails-at-once":  {Text: "numbers(500).multiUse({n: l -> l.size(), f: l -> throw(\"x\"), s: l -> l.map(e -> e * 2).sum()})", Repeats: 3, Consume: "force"},
-		"merge-with-early-stop":            {Text: "numbers(400).merge(numbers(300).map(e -> e * 2), (a, b) -> a < b).first()", Repeats: 3, Consume: "force"},
-		"lazy-result-dropped":              {Text: "numbers(200).merge(numbers(100), (a, b) -> a < b).map(e -> e + 1)", Repeats: 2, Consume: "drop"},
+		"multiUse-rejects-a-later-entry":             {Text: "numbers(10).multiUse({a: l -> l.reduce((a, b) -> a + b), b: 3})", Repeats: 3, Consume: "force"},
+		"multiUse-rejects-a-later-closure":           {Text: "numbers(1000).map(n -> n + 1).multiUse({a: l -> l.first(), b: l -> l.mapReduce(0, (s, i) -> s + i), c: (x, y) -> x * y})", Repeats: 3, Consume: "force"},
+		"multiUse-consumer-fails-at-once":            {Text: "numbers(500).multiUse({n: l -> l.size(), f: l -> throw(\"x\"), s: l -> l.map(e -> e * 2).sum()})", Repeats: 3, Consume: "force"},
+		"F32-multiUse-source-panics-in-iir-stage":    {Text: "numbers(5).iir(e -> e, (e, l) -> if e = 3 then boom(0) else e).multiUse({a: l -> l.size(), b: l -> l.sum()})", Repeats: 3, Consume: "force"},
+		"F32-multiUse-source-panics-in-number-stage": {Text: "numbers(50).number((i, e) -> if e = 30 then boom(1) else e).multiUse({a: l -> l.first(), b: l -> l.reduce((a, b) -> a + b)})", Repeats: 3, Consume: "force"},
+		"merge-with-early-stop":                      {Text: "numbers(400).merge(numbers(300).map(e -> e * 2), (a, b) -> a < b).first()", Repeats: 3, Consume: "force"},
+		"lazy-result-dropped":                        {Text: "numbers(200).merge(numbers(100), (a, b) -> a < b).map(e -> e + 1)", Repeats: 2, Consume: "drop"},
 	}
 	for name, c := range pipes {
 		os.Setenv("VERIF_FAILFILE", filepath.Join(dir, name+".json"))
